@@ -110,8 +110,9 @@ def run(chk, repo):
                 sized = bool(e.node.args) and not (isinstance(e.node.args[0], ast.Constant) and e.node.args[0].value in (None, -1))
                 chk.require(sized, "C11-I4", f"{fi.module.relpath}:{fi.qualname}", f"{short(e.node, 50)} is bounded by a size argument",
                             f"{short(e.node, 50)} has no size: it reads to the end of the file", key=f"{fi.key}:unbounded-read")
-    # I5
-    i5(chk, repo)
+    # I5 / I8
+    chk.attempt(trace_requests, chk, repo)
+    chk.attempt(i5, chk, repo, covered_by="trace_requests")
     # I6
     load_reach = g.reachable([WRAPPER_GETITEM])
     allowed = {GETITEM: {"fs_open"}, f"{ARRAY}:read_chunk": {"fs_read"}}
@@ -127,6 +128,15 @@ def run(chk, repo):
     chk.require(not bad, "C11-I6", "load path", f"{len(load_reach)} functions reachable from a pixel load: no I/O besides the open and read_chunk",
                 f"additional I/O during a pixel load: {bad[:3]}", key="load:extra-io")
     chk.count("functions", len(entry_reach))
+
+
+def trace_requests(chk, repo):
+    """C11-I8: request trace of the metadata pass on model files: 720-byte descriptor, then the line records front to back
+    in at most ceil(lines / records_per_chunk) requests, none larger than records_per_chunk records, none beyond the file"""
+    from .trace_rules import intact_rules
+    intact_rules(chk, repo, "C11-I8", ("descriptor", "sequential", "count", "size", "bounds"),
+                 "metadata pass on model files: descriptor first, then sequential requests, at most ceil(lines/records_per_chunk), each at most records_per_chunk records, none beyond the file",
+                 thorough=chk.tier == "thorough")
 
 
 def one_to_one_with_groupby(repo, fi, expr, depth=0):
